@@ -298,6 +298,7 @@ type c19Reader struct {
 	call    int
 	got     [][]byte // per call: bytes delivered
 	errored []bool   // per call: an error was returned
+	asked   []bool   // per call: Read was called at all
 }
 
 func (rd *c19Reader) begin(call int) {
@@ -305,10 +306,12 @@ func (rd *c19Reader) begin(call int) {
 	for len(rd.got) <= call {
 		rd.got = append(rd.got, nil)
 		rd.errored = append(rd.errored, false)
+		rd.asked = append(rd.asked, false)
 	}
 }
 
 func (rd *c19Reader) Read(p []byte) (int, error) {
+	rd.asked[rd.call] = true
 	if rd.ei >= len(rd.s.evs) {
 		rd.errored[rd.call] = true
 		return 0, errC19Reader
@@ -523,6 +526,17 @@ func c19ReadersJob(r *mon.R, idx int, evals *atomic.Int64) {
 			}
 		}
 		ex := map[string]any{"call": c, "delivered_in_this_call": delivered, "panicked": A.panicked[c], "panic": A.pmsg[c]}
+		// every reader must be consulted in every call (also one that failed or was short in an earlier call: it may have
+		// recovered, and the stream is documented to depend on every reader)
+		for i, rd := range A.rds {
+			evals.Add(1)
+			r.Eval("random.New/every-reader-consulted-in-every-call", fmt.Sprintf("%s|%d|%d", desc, c, i), c > 0)
+			if !rd.asked[c] {
+				ex["reader"] = i
+				r.Violation("C19/random.New/reader-not-consulted", "a reader was not asked for entropy in a call (after it failed or was short in an earlier call)", det(ex))
+				delete(ex, "reader")
+			}
+		}
 		switch {
 		case anyFull:
 			evals.Add(1)
